@@ -40,7 +40,7 @@ def run(ck, progs, tier):
         ck.set_config(prog)
         run_d(ck, prog, "derive_test", 23, 60)
         if cfgname == "S":
-            run_d(ck, prog, "verif_shapes", 10, 45, cli_types=False)
+            run_d(ck, prog, "verif_shapes", 11, 48, cli_types=False)
     if "A" in progs:
         ck.set_config(progs["A"])
         check_cli_types(ck, progs["A"])
@@ -303,6 +303,25 @@ def run_d(ck, prog, crate, n_parsers, n_literals, cli_types=True):
                 good9 = bool(errs9) and not any(ctx.cfg.reachable_from(e.dst) & (okb9 | fetch9) for e in errs9)
                 ck.ob("C20.5", f"{short}|malformed-value-is-an-error|{n_conv}", good9, fn=p, site=ctx.site(cb9),
                       detail="the result of FromStr::from_str is not matched with its Err side ending in an error: a value that does not convert is accepted as absent")
+        # C20.3 (relevant help): an error raised by a parser carries THAT parser's help - the printer handed to ArgParseError::new_cause_* is
+        # the help_printer of the type whose parser this is (an unknown option of a struct must show the struct's options, not only the
+        # commands of its subcommand enum)
+        if p.endswith(("::arg_parse", "::subcommand_parse")) and p.startswith("<"):
+            self_t = p[1:].split(" as ")[0]
+            foreign_help = []
+            n_err = 0
+            for eb, et in ctx.cfg.calls(lambda t: (t.get("callee") or "").endswith(("ArgParseError::new_cause_fmt", "ArgParseError::new_cause_str"))):
+                n_err += 1
+                a0 = ctx.args(eb)[0] if ctx.args(eb) else None
+                hp = [z for z in walk_deep(a0, ctx.prov, limit=40) if z[0] == "call" and (z[1] or "").endswith("::help_printer")] if a0 is not None else []
+                for z in hp:
+                    tz = ctx.cfg.term(z[3])
+                    res = tz.get("resolved") or ""
+                    if res and not res.startswith("<" + self_t + " as "):
+                        foreign_help.append((eb, res))
+            if n_err:
+                ck.ob("C20.3", f"{short}|{p.split('::')[-1]}|errors-carry-this-parsers-help", not foreign_help, fn=p, site=ctx.site(foreign_help[0][0]) if foreign_help else None,
+                      detail=f"an error of this parser is built with another type's help text: {[r for _, r in foreign_help][:2]}")
         # C20.6: the declared grammar is the only thing that decides what happens to a token
         if p.endswith("::arg_parse"):
             ALLOWED_CONSUMERS = ("Try::branch", "FromResidual::from_residual", "fmt::Arguments::<'a>::new", "ArgParseError::new_cause_fmt", "ArgParseError::new_cause_str", "UnixStr::as_str", "FromStr::from_str",
